@@ -134,6 +134,15 @@ def get_type(obj):
     return str(type(obj))
 
 
+def _field_value(r, field):
+    """Return the value of ``field`` of ``r`` (``NONE_OBJECT`` if it has no such field).
+
+    The field names come from the selector text: double-underscore attributes are refused like they are for ``r.__x__``."""
+    if isinstance(field, string_types) and field.startswith("__"):
+        raise InvalidOperation("Attribute {!r} not allowed: dunder attributes cannot be accessed".format(field))
+    return getattr(r, field, NONE_OBJECT)
+
+
 def has_field(r, field):
     """Check if field exists on Record object.
 
@@ -162,7 +171,7 @@ def field_regex(r, fields, regex):
     """
     s_pattern = re.compile(regex)
     for field in fields:
-        fvalue = getattr(r, field, NONE_OBJECT)
+        fvalue = _field_value(r, field)
         if fvalue is NONE_OBJECT:
             continue
 
@@ -191,7 +200,7 @@ def field_equals(r, fields, strings, nocase=True):
         strings_to_check = strings
 
     for field in fields:
-        fvalue = getattr(r, field, NONE_OBJECT)
+        fvalue = _field_value(r, field)
         if fvalue is NONE_OBJECT:
             continue
         if nocase:
@@ -219,7 +228,7 @@ def field_contains(r, fields, strings, nocase=True, word_boundary=False):
         strings_to_check = strings
 
     for field in fields:
-        fvalue = getattr(r, field, NONE_OBJECT)
+        fvalue = _field_value(r, field)
         if fvalue is NONE_OBJECT:
             continue
         if nocase:
